@@ -137,7 +137,8 @@ def audit_property(pid):
     if rc != 0:
         res["problems"].append("Props file does not compile: " + (out + err)[-1500:])
     src = open(pf).read()
-    names = re.findall(r"^\s*(?:Theorem|Corollary|Lemma)\s+(\w+)", src, flags=re.M)
+    src_nc = re.sub(r"\(\*.*?\*\)", "", src, flags=re.S)
+    names = re.findall(r"^\s*Print\s+Assumptions\s+(\w+)\s*\.", src_nc, flags=re.M)
     res["theorems"] = names
     res["obligations"] = len(names)
     closed = out.count("Closed under the global context")
